@@ -63,9 +63,21 @@ def check_hash_input_coverage(ck, R):
                 feed = d.args[0].id
     ck.need(feed is not None, "hash_if_code_object: no sha256.update(json.dumps(<list>)) found")
     consumed = {}
+    narrowed = {}
+    NARROWING = {"len", "bool", "hash", "set", "frozenset", "min", "max", "any", "all", "sum", "id", "type"}
     def scan(expr, where):
+        parents = {}
+        for p_ in ast.walk(expr):
+            for ch in ast.iter_child_nodes(p_):
+                parents[id(ch)] = p_
         for n in ast.walk(expr):
             if isinstance(n, ast.Attribute) and isinstance(n.value, ast.Name) and n.value.id == obj and n.attr.startswith("co_"):
+                par = parents.get(id(n))
+                if (isinstance(par, ast.Subscript) and par.value is n) or \
+                        (isinstance(par, ast.Call) and isinstance(par.func, ast.Name) and par.func.id in NARROWING and n in par.args):
+                    # only a part / a summary of the attribute is hashed
+                    narrowed.setdefault(n.attr, par)
+                    continue
                 consumed.setdefault(n.attr, where)
             if isinstance(n, ast.Call) and A.call_attr(n) == "getattr" and len(n.args) >= 2 and A.norm(n.args[0]) == obj and A.const_str(n.args[1]):
                 consumed.setdefault(A.const_str(n.args[1]), where)
@@ -86,6 +98,11 @@ def check_hash_input_coverage(ck, R):
                         scan(local_src[nm], c)
     for attr, why in CODE_RELEVANT.items():
         ok = attr in consumed
+        if not ok and attr in narrowed:
+            ck.ob(R, h.key(None, attr), False,
+                  "only `%s` of %s (%s) reaches the code hash, not the attribute as a whole: an edit that changes the rest of it keeps the version, "
+                  "and a stale result is served" % (A.short(narrowed[attr], 50), attr, why), h.where(narrowed[attr]))
+            continue
         ck.ob(R, h.key(None, attr), ok, "%s reaches the digest" % attr if ok else
               "%s (%s) is not part of the code hash: an edit that only changes it keeps the version, and a stale result is served" % (attr, why), h.where())
     # co_consts recursion
@@ -606,6 +623,34 @@ def check_determinism_taint(ck, R):
             ok = _stable_repr_function(ck, v.func.id)
             ck.ob(R, h.key(r, "const-repr"), ok, "constants go through %s, which sorts set elements" % v.func.id if ok else
                   "constants are serialised by %s, which does not canonicalise set-valued constants" % v.func.id, h.where(r))
+    # the renderers of hashed text are not memoised by equality: `(3, 1, 2) == (3.0, 1.0, 2.0)` and both are
+    # tuples, so even a typed lru_cache (typed=True looks at the type of the argument itself only)
+    # hands the text rendered for the first to the second; which of two such constants is rendered
+    # first depends on definition / import order, i.e. on the process
+    n_cached = 0
+    mod_funcs = ck.repo.module(CH).functions
+    roots = {A.call_attr(r.value) for r in h.returns() if isinstance(r.value, ast.Call) and isinstance(r.value.func, ast.Name)} & set(mod_funcs)
+    closure = set(roots) | {"fn_code_hash"}
+    work = list(closure)
+    while work:
+        cur = mod_funcs.get(work.pop())
+        if cur is None:
+            continue
+        for c in ast.walk(cur.node):
+            if isinstance(c, ast.Call) and isinstance(c.func, ast.Name) and c.func.id in mod_funcs and c.func.id not in closure:
+                closure.add(c.func.id)
+                work.append(c.func.id)
+    for fi in [f_ for f_ in ck.repo.module(CH).all_funcs() if f_.parent is None and f_.cls is None and f_.name in closure]:
+        for dn in fi.node.decorator_list:
+            txt = A.norm(dn)
+            if "lru_cache" in txt or txt in ("functools.cache", "cache"):
+                n_cached += 1
+                ck.ob(R, fi.qual + "::renderer-not-memoised", False,
+                      "%s is wrapped in `%s`: the cache identifies arguments by ==/hash, which conflates constants that differ only in the type of "
+                      "their elements ((3, 1, 2) / (3.0, 1.0, 2.0), frozenset({1}) / frozenset({True})); the text hashed for one of them is the text "
+                      "rendered for whichever was seen first, so a function's version depends on what else was hashed before it in that process"
+                      % (fi.qual, A.short(dn, 50)), A.loc(fi, fi.node))
+    ck.ob(R, CH + "::renderer-not-memoised::scan", True, "%d equality-keyed caches among the renderers of hashed text (%s)" % (n_cached, sorted(closure)), "")
     # dict-valued dumps
     sv = FA(ck, CH + ".GlobalVariableHashRule._serialize_value")
     for c in sv.calls("dumps"):
@@ -669,17 +714,6 @@ def check_ordered_iteration(ck, R):
           "the digest loop iterates an unordered set: the version depends on hash randomisation / definition order", fa.where(lp.ast))
     # the order must be total on the rule set: the rules' own ordering (on the unique key) or a
     # key function that includes that key
-    srt = [c for c in fa.calls("sorted")] + [c for c in fa.calls("sort")]
-    for c in srt:
-        k = A.kwarg(c, "key")
-        okk = k is None
-        if k is not None and isinstance(k, ast.Lambda):
-            p0 = k.args.args[0].arg if k.args.args else None
-            okk = any(isinstance(n, ast.Attribute) and n.attr == "key" and isinstance(n.value, ast.Name) and n.value.id == p0 for n in ast.walk(k.body))
-        okk = okk and A.kwarg(c, "reverse") is None
-        ck.ob(R, fa.key(c, "total-order"), okk, "rules are ordered by their unique key" if okk else
-              "rules are sorted with `%s`, which does not include the unique rule key: rules that tie keep the hash-seed dependent "
-              "set order and the digest differs between processes" % A.short(k, 60), fa.where(c))
     base = ck.repo.cls(CH + ".HashRule")
     fields = {}
     for nm in ("__lt__", "__eq__", "__hash__"):
@@ -688,6 +722,20 @@ def check_ordered_iteration(ck, R):
         f2 = FA(ck, m)
         at = {n.attr for r in f2.returns() for n in ast.walk(r.value) if isinstance(n, ast.Attribute)}
         fields[nm] = at
+    srt = [c for c in fa.calls("sorted")] + [c for c in fa.calls("sort")]
+    ident = fields["__eq__"]
+    for c in srt:
+        k = A.kwarg(c, "key")
+        okk = k is None
+        used = set()
+        if k is not None and isinstance(k, ast.Lambda):
+            p0 = k.args.args[0].arg if k.args.args else None
+            used = {n.attr for n in ast.walk(k.body) if isinstance(n, ast.Attribute) and isinstance(n.value, ast.Name) and n.value.id == p0}
+            okk = bool(ident) and ident <= used
+        okk = okk and A.kwarg(c, "reverse") is None
+        ck.ob(R, fa.key(c, "total-order"), okk, "rules are ordered on the fields that identify them (%s)" % sorted(ident) if okk else
+              "rules are sorted with `%s`, which does not cover the fields that tell two rules apart (%s): rules that tie keep the hash-seed "
+              "dependent set order and the digest differs between processes" % (A.short(k, 60), sorted(ident - used) or sorted(ident)), fa.where(c))
     okf = fields["__lt__"] == fields["__eq__"] == fields["__hash__"] and "key" in fields["__eq__"]
     ck.ob(R, base.qual + "::order-on-key", okf, "__lt__/__eq__/__hash__ all use %s" % sorted(fields["__eq__"]) if okf else
           "HashRule ordering/equality/hash use different fields %s: sorted() is not a total order on the rule set" % fields, A.loc(base, base.node))
